@@ -115,6 +115,47 @@ fn growth_history(total_mib: usize, chunk_kib: usize) -> History {
     History { pagesize: 4096, num_pages: 4, strict: false, populate: false, txs, origin: format!("growth run {} MiB in {} KiB values", total_mib, chunk_kib) }
 }
 
+/// one commit that needs several extension steps at once (a bulk load), then ordinary commits
+fn bulk_growth_history(mib: usize) -> History {
+    let mut txs = Vec::new();
+    let mut ops = vec![Op::TxGetOrCreate { k: K::lit(b"bulk"), how: How::Slice }];
+    let n = mib * 2;
+    for i in 0..n {
+        ops.push(Op::Put { h: 0, k: K { pre: format!("part-{:04}", i).into_bytes(), fill: 0, post: vec![] }, v: V { tag: 70_000 + i as u64, len: 512 * 1024 }, how: How::Slice, vhow: How::Slice });
+    }
+    txs.push(TxScript { ops, end: End::Commit, reopen: false });
+    // read back through the same handle (the executor does) and keep going on it
+    txs.push(TxScript { ops: vec![Op::TxGet { k: K::lit(b"bulk"), how: How::Slice }, Op::Put { h: 0, k: K::lit(b"after"), v: V { tag: 1, len: 100 }, how: How::Slice, vhow: How::Slice }, Op::Scan { h: 0 }], end: End::Commit, reopen: true });
+    History { pagesize: 4096, num_pages: 4, strict: false, populate: false, txs, origin: format!("bulk load of {} MiB in a single commit", mib) }
+}
+
+/// walk the page high-water mark, one small commit at a time, across the end of the file that the
+/// first extension produced: with page sizes that do not divide the extension step one page straddles it
+fn boundary_walk_history(ps: u64) -> History {
+    let step: u64 = 8 * 1024 * 1024;
+    let mut txs = Vec::new();
+    // first commit: fill to some 150 pages below the end of the file as it is after the first extension
+    let target_pages = (step + 4 * ps) / ps;
+    let per_value = 8 * ps as usize;
+    let n_fill = (target_pages as usize).saturating_sub(150) / 9;
+    let mut ops = vec![Op::TxGetOrCreate { k: K::lit(b"walk"), how: How::Slice }];
+    for i in 0..n_fill {
+        ops.push(Op::Put { h: 0, k: K { pre: format!("fill-{:05}", i).into_bytes(), fill: 0, post: vec![] }, v: V { tag: 80_000 + i as u64, len: per_value }, how: How::Slice, vhow: How::Slice });
+    }
+    txs.push(TxScript { ops, end: End::Commit, reopen: false });
+    // then creep: every commit adds one half-page value to a separate small bucket, so the
+    // high-water mark rises by a page or two at a time and passes through every page count
+    for i in 0..420usize {
+        let ops = vec![
+            Op::TxGetOrCreate { k: K::lit(b"creep"), how: How::Slice },
+            Op::Put { h: 0, k: K { pre: format!("step-{:05}", i).into_bytes(), fill: 0, post: vec![] }, v: V { tag: 90_000 + i as u64, len: ps as usize / 2 }, how: How::Slice, vhow: How::Slice },
+            Op::Get { h: 0, k: K { pre: format!("step-{:05}", i).into_bytes(), fill: 0, post: vec![] } },
+        ];
+        txs.push(TxScript { ops, end: End::Commit, reopen: false });
+    }
+    History { pagesize: ps, num_pages: 4, strict: false, populate: false, txs, origin: format!("boundary walk across the first extension at page size {}", ps) }
+}
+
 // ---------------------------------------------------------------------------
 // odd page sizes, in a child process
 
@@ -296,6 +337,44 @@ pub fn run(ctx: &Ctx) -> Shard {
             (26, 3072, Cfg { pagesize: 5000, num_pages: 4, strict: false, populate: true }),
         ]
     };
+    // directed growth histories: bulk load in one commit; walking the high-water mark over the end of the file
+    let mut directed: Vec<(History, Cfg)> = vec![
+        (bulk_growth_history(12), Cfg { pagesize: 4096, num_pages: 4, strict: false, populate: false }),
+        (bulk_growth_history(20), Cfg { pagesize: 1024, num_pages: 4, strict: true, populate: false }),
+        (boundary_walk_history(5000), Cfg { pagesize: 5000, num_pages: 4, strict: false, populate: false }),
+        (boundary_walk_history(3000), Cfg { pagesize: 3000, num_pages: 4, strict: true, populate: false }),
+    ];
+    if ctx.thorough() {
+        directed.push((bulk_growth_history(28), Cfg { pagesize: 16384, num_pages: 32, strict: false, populate: true }));
+        directed.push((boundary_walk_history(1032), Cfg { pagesize: 1032, num_pages: 4, strict: false, populate: false }));
+        directed.push((boundary_walk_history(5000), Cfg { pagesize: 5000, num_pages: 32, strict: true, populate: true }));
+    }
+    for (di, (h0, c)) in directed.iter().enumerate() {
+        if (di as u64 + 9) % ctx.nshards != ctx.shard {
+            continue;
+        }
+        let h = with_cfg(h0, c);
+        if let Some(cu) = &cur {
+            let _ = std::fs::write(cu, serde_json::to_vec(&serde_json::json!({"kind": "history", "history_origin": h.origin, "config": c})).unwrap());
+        }
+        let path = scratch.fresh("dir");
+        let out = exec::run_history(&h, &exec_cfg(), &path);
+        let _ = std::fs::remove_file(&path);
+        shard.evaluations += 1;
+        let hh = util::fnv64(format!("directed|{:?}|{}", c, h.origin).as_bytes());
+        shard.distinct.insert(hh);
+        if out.stats.growths >= 1 {
+            shard.nontrivial.insert(hh);
+        }
+        shard.count("directed_growth_histories", 1);
+        shard.set("directed_growth_histories", format!("{} -> {} commits, {} extensions", h.origin, out.stats.commits, out.stats.growths));
+        total.merge(&out.stats);
+        for v in out.violations.iter().filter(|v| reports(v.class)) {
+            // these histories are large: the replay names the generator instead of listing 10^4 operations
+            let replay = serde_json::json!({"kind": "directed-growth", "origin": h.origin, "config": c});
+            shard.violation(ctx, &format!("growth:{}", v.sig), &format!("[{} pagesize={} strict={}] {}", h.origin, c.pagesize, c.strict, v.detail), &replay);
+        }
+    }
     for (gi, (mib, kib, c)) in growth.iter().enumerate() {
         if (gi as u64 + 3) % ctx.nshards != ctx.shard {
             continue;
